@@ -483,6 +483,9 @@ def tasks(tier):
     for k in range(5):
         out.append(("malformed-%d" % k, task_malformed, dict(n=15000)))
     out.append(("customised", task_custom, dict(n=8000, depth=3)))
+    # coverage-guided tier (pbt/fuzz.py): libFuzzer drives the same strategies and oracles
+    from .. import fuzz
+    fuzz.extend(out, PROPERTY, ["valid-1", "malformed-0"])
     return out
 
 
